@@ -299,7 +299,7 @@ pub fn run(tier: Tier) -> Report {
         "a source that fails in the fresh run may keep a stale output; only the presence of an error for it is required".to_owned(),
         "in-memory resources (empty-directory pruning is a file-system-only behaviour)".to_owned(),
     ];
-    let depth = tier.pick(2, 3);
+    let depth = tier.pick(2, 4);
     let mut batches: Vec<Vec<Event>> = EVENTS.iter().map(|e| vec![*e]).collect();
     for a in EVENTS {
         for b in EVENTS {
